@@ -394,14 +394,28 @@ class AstInfo:
             True if self should be covered, False otherwise.
         """
         start_line = scope_line_range(self.ast)[0]
-        return self._in_cover(start_line) and all(
-            self._in_cover(scope_line_range(definition_node)[0])
+        enclosing_definitions = [
+            AstInfo(ast=cast("ScopeNode", definition_node), module=self.module)
             for definition_node in nodes_of_class(
                 self.module.module_ast, (ast.FunctionDef, ast.AsyncFunctionDef, ast.ClassDef)
             )
-            if scope_line_range(definition_node)[0]
+            if definition_node is not self.ast
+            and scope_line_range(definition_node)[0]
             <= start_line
             <= scope_line_range(definition_node)[1]
+        ]
+        # Every enclosing function or class must be in the cover lines, judged with its
+        # own extent, and self must not sit in an excluded block of any enclosing scope.
+        return (
+            self._in_cover(start_line)
+            and all(
+                definition._in_cover(scope_line_range(definition.ast)[0])  # noqa: SLF001
+                and definition.should_cover_line(start_line)
+                for definition in enclosing_definitions
+            )
+            and AstInfo(ast=self.module.module_ast, module=self.module).should_cover_line(
+                start_line
+            )
         )
 
     def should_cover_line(self, lineno: int) -> bool:
